@@ -166,9 +166,12 @@ def run(tier):
             ("dfs_wrr", {"progs": PROGS["C_WRR"], "preempt": 2, "max_runs": 2500, "spur": 0, "eintr": 0, "weak": 0}),
             # try variants against a word with a holder and both waiting bits (needs 4 threads)
             ("dfs_www", {"progs": PROGS["C_WWW"], "preempt": 1, "max_runs": 600, "spur": 0, "eintr": 0, "weak": 0}),
-            ("dfs_rwrt", {"progs": PROGS["G_RWRT"], "preempt": 1, "max_runs": 600, "spur": 0, "eintr": 0, "weak": 0}),
-            ("dfs_wwrt", {"progs": PROGS["G_WWRT"], "preempt": 1, "max_runs": 600, "spur": 0, "eintr": 0, "weak": 0}),
-            ("rnd4", {"progs": [WAU + RAU, RAU + WAU, TWAU + RAU, RAU + TRAU], "runs": 200, "spur": 1, "eintr": 1, "weak": 1}),
+            # coverage-guided (novel (state, choice) pairs first): reaches the words with a holder and both
+            # waiting bits within a few runs, which a capped DFS with 4 threads does not
+            ("cov_rwrt", {"mode": "cover", "progs": PROGS["G_RWRT"], "runs": 250, "spur": 0, "eintr": 0, "weak": 0}),
+            ("cov_wwrt", {"mode": "cover", "progs": PROGS["G_WWRT"], "runs": 250, "spur": 0, "eintr": 0, "weak": 0}),
+            ("cov4", {"mode": "cover", "progs": [WAU + RAU, RAU + WAU, TWAU + RAU, RAU + TRAU], "runs": 300, "spur": 1, "eintr": 1, "weak": 1}),
+            ("rnd4", {"progs": [WAU + RAU, RAU + WAU, TWAU + RAU, RAU + TRAU], "runs": 150, "spur": 1, "eintr": 1, "weak": 1}),
         ]
     else:
         tours = [("wr", 2, "A_WR", (1, 1, 1)), ("ww", 2, "A_WW", (1, 1, 1)), ("wtr", 2, "A_WTR", (1, 1, 1)),
@@ -190,7 +193,10 @@ def run(tier):
             ("dfs_www", {"progs": PROGS["C_WWW"], "preempt": 3, "max_runs": 8000, "spur": 0, "eintr": 0, "weak": 0}),
             ("dfs_rwrt", {"progs": PROGS["G_RWRT"], "preempt": 2, "max_runs": 8000, "spur": 0, "eintr": 0, "weak": 0}),
             ("dfs_wwrt", {"progs": PROGS["G_WWRT"], "preempt": 2, "max_runs": 8000, "spur": 0, "eintr": 0, "weak": 0}),
-            ("rnd4", {"progs": [WAU + RAU, RAU + WAU, TWAU + RAU, RAU + TRAU], "runs": 4000, "spur": 1, "eintr": 1, "weak": 1}),
+            ("cov_rwrt", {"mode": "cover", "progs": PROGS["G_RWRT"], "runs": 4000, "spur": 1, "eintr": 0, "weak": 1}),
+            ("cov_wwrt", {"mode": "cover", "progs": PROGS["G_WWRT"], "runs": 4000, "spur": 1, "eintr": 0, "weak": 1}),
+            ("cov4", {"mode": "cover", "progs": [WAU + RAU, RAU + WAU, TWAU + RAU, RAU + TRAU], "runs": 6000, "spur": 1, "eintr": 1, "weak": 1}),
+            ("rnd4", {"progs": [WAU + RAU, RAU + WAU, TWAU + RAU, RAU + TRAU], "runs": 3000, "spur": 1, "eintr": 1, "weak": 1}),
         ]
     stress = {"threads": 4, "sections": 1500} if tier == "quick" else {"threads": 8, "sections": 10000}
     rare = [("wwr", 3, "C_WWR", (0, 0, 0))] if tier == "quick" else []     # thorough tours the 3-thread graph wrt completely
